@@ -4,10 +4,12 @@ package e2etest
 
 import (
 	"context"
+	"encoding/json"
 	"fmt"
 	"math"
 	"math/rand/v2"
 	"os"
+	"path/filepath"
 	"sort"
 	"strconv"
 	"strings"
@@ -15,6 +17,8 @@ import (
 
 	"go.opentelemetry.io/collector/confmap"
 	"go.opentelemetry.io/collector/confmap/provider/envprovider"
+	"go.opentelemetry.io/collector/confmap/provider/fileprovider"
+	"go.opentelemetry.io/collector/confmap/provider/yamlprovider"
 )
 
 // External-package harness: the REAL envprovider (name validation, ${env:NAME:-default}, unset variables, ${NAME} through
@@ -43,6 +47,27 @@ func (r *vEnvRec) Retrieve(ctx context.Context, uri string, w confmap.WatcherFun
 }
 func (r *vEnvRec) Scheme() string                     { return r.inner.Scheme() }
 func (r *vEnvRec) Shutdown(ctx context.Context) error { return r.inner.Shutdown(ctx) }
+
+// vEnvSrcRec wraps a REAL top-level provider (yamlprovider / fileprovider): the raw value it returned for each location is
+// recorded, in retrieval order, and sent to the model as that source
+type vEnvSrcRec struct {
+	inner confmap.Provider
+	got   *[]any
+	uris  *[]string
+}
+
+func (r *vEnvSrcRec) Retrieve(ctx context.Context, uri string, w confmap.WatcherFunc) (*confmap.Retrieved, error) {
+	ret, err := r.inner.Retrieve(ctx, uri, w)
+	*r.uris = append(*r.uris, uri)
+	if err != nil {
+		return nil, err
+	}
+	raw, _ := ret.AsRaw()
+	*r.got = append(*r.got, vEnvClone(raw))
+	return ret, nil
+}
+func (r *vEnvSrcRec) Scheme() string                     { return r.inner.Scheme() }
+func (r *vEnvSrcRec) Shutdown(ctx context.Context) error { return r.inner.Shutdown(ctx) }
 
 type vEnvSrc struct{ m map[string]any }
 
@@ -155,6 +180,8 @@ var vEnvPieces = []string{"a", " ", "${env:VC12_A}", "${env:VC12_B}", "${VC12_A}
 	"${env:VC12_A:-dflt}", "${env:VC12_U:-}", "${env:VC12_U:-${env:VC12_B}}", "${env:VC12_U:-a:-b}", "${env:1BAD}", "${env:a.b}", "${env:}", "${env:VC12_A }",
 	"$$", "$", "$${env:VC12_A}", ":4317", "${env:VC12_D}", "${env:VC12_E}", "${env:$VC12_A}", "${env:VC12_U:-$$x}", "}", "{", "${env:VC12_A$}", "${$VC12_A}", "${VC12_A$$}", "${$}"}
 
+var vEnvDir string
+
 func TestVerifC12Env(t *testing.T) {
 	out := vOpen(t)
 	defer out.Close()
@@ -177,6 +204,7 @@ func TestVerifC12Env(t *testing.T) {
 		}
 	}()
 	os.Unsetenv("VC12_U")
+	vEnvDir = t.TempDir()
 	n := vN(3000)
 	for _, idx := range vCases(n) {
 		vEnvCase(out, idx, vRand(idx))
@@ -227,6 +255,44 @@ func vEnvCase(out *vOut, idx int, rnd *rand.Rand) {
 			m[k] = vEnvString(rnd)
 		}
 	}
+	// a second / third top-level location served by the REAL yamlprovider ("yaml:<text>") or the REAL fileprovider
+	// ("file:<path>", or a bare path: NewResolver's no-scheme fall-back to "file")
+	uris := []string{"vsrc:0"}
+	var realGot []any
+	var realURIs []string
+	var wantReal []string
+	for extra := 0; extra < 2 && rnd.IntN(2) == 0; extra++ {
+		m2 := map[string]any{}
+		for _, k := range []string{"k2", "k1", "k0"}[:1+rnd.IntN(3)] {
+			switch rnd.IntN(4) {
+			case 0:
+				m2[k] = []any{vEnvString(rnd), 1}
+			case 1:
+				m2[k] = map[string]any{"v": vEnvString(rnd), "n": rnd.IntN(3)}
+			default:
+				m2[k] = vEnvString(rnd)
+			}
+		}
+		txt, _ := json.Marshal(m2) // JSON is YAML
+		switch rnd.IntN(3) {
+		case 0:
+			uris = append(uris, "yaml:"+string(txt))
+			wantReal = append(wantReal, "yaml:"+string(txt))
+			out.Linef("stat real_yaml_location 1")
+		case 1:
+			path := filepath.Join(vEnvDir, "c"+strconv.Itoa(idx)+"-"+strconv.Itoa(extra)+".yaml")
+			_ = os.WriteFile(path, txt, 0o600)
+			uris = append(uris, "file:"+path)
+			wantReal = append(wantReal, "file:"+path)
+			out.Linef("stat real_file_location 1")
+		default:
+			path := filepath.Join(vEnvDir, "c"+strconv.Itoa(idx)+"-"+strconv.Itoa(extra)+".yaml")
+			_ = os.WriteFile(path, txt, 0o600)
+			uris = append(uris, path) // no scheme
+			wantReal = append(wantReal, "file:"+path)
+			out.Linef("stat real_bare_path_location 1")
+		}
+	}
 	rec := &vEnvRec{ret: map[string]*confmap.Retrieved{}}
 	src := &vEnvSrc{m: m}
 	var conf *confmap.Conf
@@ -236,8 +302,14 @@ func vEnvCase(out *vOut, idx int, rnd *rand.Rand) {
 		defer func() { panicked = recover() }()
 		var r *confmap.Resolver
 		r, err = confmap.NewResolver(confmap.ResolverSettings{
-			URIs: []string{"vsrc:0"},
+			URIs: uris,
 			ProviderFactories: []confmap.ProviderFactory{
+				confmap.NewProviderFactory(func(ps confmap.ProviderSettings) confmap.Provider {
+					return &vEnvSrcRec{inner: yamlprovider.NewFactory().Create(ps), got: &realGot, uris: &realURIs}
+				}),
+				confmap.NewProviderFactory(func(ps confmap.ProviderSettings) confmap.Provider {
+					return &vEnvSrcRec{inner: fileprovider.NewFactory().Create(ps), got: &realGot, uris: &realURIs}
+				}),
 				confmap.NewProviderFactory(func(ps confmap.ProviderSettings) confmap.Provider {
 					rec.inner = envprovider.NewFactory().Create(ps)
 					return rec
@@ -274,6 +346,13 @@ func vEnvCase(out *vOut, idx int, rnd *rand.Rand) {
 		}
 	}
 	out.Linef("op src %s", vEnvEnc(m))
+	for _, g := range realGot {
+		out.Linef("op src %s", vEnvEnc(g))
+	}
+	// direct oracle: the real providers were asked for exactly the locations given, in order (a bare path as "file:<path>")
+	if strings.Join(realURIs, "\x00") != strings.Join(wantReal, "\x00") && (err == nil || len(realURIs) > len(wantReal)) {
+		out.Linef("viol sig=C12/location/retrieved-not-the-uri-list-in-order want=%s got=%s", vEnvHex(strings.Join(wantReal, " ")), vEnvHex(strings.Join(realURIs, " ")))
+	}
 	hint := "-"
 	if err != nil {
 		hint = vEnvErrClass(err)
